@@ -14,6 +14,7 @@
 package main
 
 import (
+	"crypto/sha256"
 	"encoding/json"
 	"fmt"
 	"math/big"
@@ -21,6 +22,7 @@ import (
 	"strings"
 	"time"
 
+	"github.com/meshplus/bitxhub-core/governance"
 	"github.com/meshplus/bitxhub-kit/types"
 	"github.com/meshplus/bitxhub-model/pb"
 	"github.com/meshplus/bitxhub/internal/ledger"
@@ -222,9 +224,11 @@ func runHistory(line []byte) (interface{}, error) {
 // ---------------------------------------------------------------- executor-level leg
 //
 // input : {"ops":[{"op":"x","n":3,"bad":1},{"op":"y","k":3,"n":2},{"op":"o"}], "kh":k}
-// x = the REAL executor executes a block of n native transfers at head+1 (bad>0: that many of
-// them carry a wrong nonce and fail); y = consensus RE-DELIVERS a different block for the already
-// executed height k (2 <= k <= head): the executor's own rollbackBlocks path (block.Number !=
+// The bootstrap executes genesis (block 1) and block 2 (seeded appchains chainA/chainB with a service
+// each, funding of the interchain user).  x = the REAL executor executes a block at head+1 with n
+// native transfers (bad of them with a wrong nonce: they fail) and m IBTP requests chainA:svc1 ->
+// chainB:svc1 with the next indices (mbad of them with a wrong index: rejected, deliver nothing); y = consensus RE-DELIVERS a different block for the already
+// executed height k (3 <= k <= head): the executor's own rollbackBlocks path (block.Number !=
 // currentHeight+1 -> ledger.Rollback(k-1) -> execute on top of block k-1); o = restart.
 // The blocks are sealed by executor.processExecuteEvent; the entries reported are what the
 // executor handed to the ledger (header, hash, transactions from the executed event; receipts
@@ -233,10 +237,12 @@ func runHistory(line []byte) (interface{}, error) {
 type execIn struct {
 	KH  int `json:"kh"`
 	Ops []struct {
-		Op  string `json:"op"`
-		N   int    `json:"n"`
-		Bad int    `json:"bad"`
-		K   uint64 `json:"k"`
+		Op   string `json:"op"`
+		N    int    `json:"n"`
+		Bad  int    `json:"bad"`
+		K    uint64 `json:"k"`
+		M    int    `json:"m"`    // interchain (IBTP) transactions in the block
+		MBad int    `json:"mbad"` // of them: with a wrong index (rejected)
 	} `json:"ops"`
 }
 
@@ -270,20 +276,61 @@ func execPass(h execIn, t *clx.Tables, observe bool, uh, ut []*types.Hash) (out 
 	view := func() *clx.Stores {
 		return &clx.Stores{Dir: c.Dir, Ledger: c.Ledger, CL: c.Ledger.ChainLedger.(*ledger.ChainLedgerImpl), Repo: c.Repo}
 	}
-	nonces := make([]uint64, 4)
-	nonceAt := map[uint64][]uint64{1: {0, 0, 0, 0}} // account nonces after block h (for re-delivery)
-	mkTxs := func(i, n, bad, salt int) []pb.Transaction {
+	// per-height snapshots of everything the transaction builder depends on (for re-delivery):
+	// admin nonces, the interchain user's nonce, the next IBTP index of the service pair
+	type gen struct {
+		nonces [4]uint64
+		unonce uint64
+		index  uint64
+	}
+	var g gen
+	g.index = 1
+	genAt := map[uint64]gen{}
+	user := hx.Key(1)
+	const from, to = "1356:chainA:svc1", "1356:chainB:svc1"
+	mkTxs := func(i, n, bad, m, mbad, salt int) []pb.Transaction {
 		var txs []pb.Transaction
-		for j := 0; j < n; j++ {
+		for j := 0; j < n+m; j++ {
+			// interleave: the interchain transactions come after the first transfer
+			if j >= 1 && j <= m {
+				idx := g.index
+				k := j - 1
+				if k < mbad {
+					idx += 5 // wrong index: rejected, delivers nothing
+				} else {
+					g.index++
+				}
+				proof := []byte(fmt.Sprintf("proof-%d-%d", salt, j))
+				ph := sha256.Sum256(proof)
+				ibtp := &pb.IBTP{From: from, To: to, Index: idx, Type: pb.IBTP_INTERCHAIN, TimeoutHeight: 50, Proof: ph[:]}
+				txs = append(txs, hx.IBTPTx(user, g.unonce, ibtp, proof))
+				g.unonce++
+				continue
+			}
+			if m > 0 && n == 0 {
+				// only interchain transactions in this block
+				idx := g.index
+				if j < mbad {
+					idx += 5
+				} else {
+					g.index++
+				}
+				proof := []byte(fmt.Sprintf("proof-%d-%d", salt, j))
+				ph := sha256.Sum256(proof)
+				ibtp := &pb.IBTP{From: from, To: to, Index: idx, Type: pb.IBTP_INTERCHAIN, TimeoutHeight: 50, Proof: ph[:]}
+				txs = append(txs, hx.IBTPTx(user, g.unonce, ibtp, proof))
+				g.unonce++
+				continue
+			}
 			a := (i + j) % 4
-			to := hx.Addr(hx.Key(5000 + j + 100*salt))
-			nonce := nonces[a]
+			rcv := hx.Addr(hx.Key(5000 + j + 100*salt))
+			nonce := g.nonces[a]
 			if j < bad {
 				nonce += 7 // wrong nonce: the transaction fails, its receipt is still stored
 			} else {
-				nonces[a]++
+				g.nonces[a]++
 			}
-			txs = append(txs, hx.TransferTx(c.Admins[a], nonce, to, "1"))
+			txs = append(txs, hx.TransferTx(c.Admins[a], nonce, rcv, "1"))
 		}
 		return txs
 	}
@@ -294,6 +341,7 @@ func execPass(h execIn, t *clx.Tables, observe bool, uh, ut []*types.Hash) (out 
 			return clx.Entry{}, nil, nil, err
 		}
 		var txh, rch []*types.Hash
+		var rcs []*pb.Receipt
 		for _, tx := range b.Transactions.Transactions {
 			txh = append(txh, tx.GetHash())
 			r, err := s.CL.GetReceipt(tx.GetHash())
@@ -301,27 +349,47 @@ func execPass(h execIn, t *clx.Tables, observe bool, uh, ut []*types.Hash) (out 
 				return clx.Entry{}, nil, nil, err
 			}
 			rch = append(rch, r.Hash())
+			rcs = append(rcs, r)
 		}
-		im, err := s.CL.GetInterchainMeta(height)
-		if err != nil {
-			return clx.Entry{}, nil, nil, err
-		}
-		ic, tag := clx.CanonIC(im)
-		e := clx.Entry{Op: opIdx, Hdr: t.Header(b.BlockHeader), Hash: t.In.Hash(b.BlockHash), Txs: t.Root(txh), Rcpts: t.Root(rch), IC: ic, Tag: tag}
+		// the interchain meta the block SHOULD carry: recomputed from the receipts' interchain events,
+		// not read back from the stored meta
+		e := clx.Entry{Op: opIdx, Hdr: t.Header(b.BlockHeader), Hash: t.In.Hash(b.BlockHash), Txs: t.Root(txh), Rcpts: t.Root(rch),
+			IC: clx.ExecutedIC(rcs), Tag: 0}
 		return e, b.BlockHash, txh, nil
 	}
-	// step -1: genesis (block 1) was executed by NewChain
-	e, bh, txh, err := entryOf(-1, 1)
-	if err != nil {
+	record := func(opIdx int, code int) error {
+		if opIdx < 0 || code == 0 || code == 6 {
+			e, bh, txh, err := entryOf(opIdx, c.Height())
+			if err != nil {
+				return err
+			}
+			out.Entries = append(out.Entries, e)
+			madeB, madeT = append(madeB, bh), append(madeT, txh...)
+		}
+		st := stepOut{Code: code}
+		if observe {
+			st.Obs = clx.Observe(view(), t, h.KH, uh, ut)
+		}
+		out.Steps = append(out.Steps, st)
+		return nil
+	}
+	// step -2: genesis (block 1) was executed by NewChain
+	if err := record(-2, 0); err != nil {
 		return out, nil, nil, err
 	}
-	out.Entries = append(out.Entries, e)
-	madeB, madeT = append(madeB, bh), append(madeT, txh...)
-	st := stepOut{}
-	if observe {
-		st.Obs = clx.Observe(view(), t, h.KH, uh, ut)
+	// step -1: block 2 carries the seeded appchains / services and funds the interchain user
+	c.SeedAppchain("chainA", "", "", governance.GovernanceAvailable)
+	c.SeedAppchain("chainB", "", "", governance.GovernanceAvailable)
+	c.SeedService("chainA", "svc1", true, governance.GovernanceAvailable, nil)
+	c.SeedService("chainB", "svc1", true, governance.GovernanceAvailable, nil)
+	if ev := c.ExecBlock([]pb.Transaction{hx.TransferTx(c.Admins[0], 0, hx.Addr(user), "1000")}, true, 20*time.Second); ev == nil {
+		return out, nil, nil, fmt.Errorf("seed block not executed")
 	}
-	out.Steps = append(out.Steps, st)
+	g.nonces[0] = 1
+	genAt[2] = g
+	if err := record(-1, 0); err != nil {
+		return out, nil, nil, err
+	}
 	for i, o := range h.Ops {
 		code := 0
 		switch o.Op {
@@ -329,13 +397,13 @@ func execPass(h execIn, t *clx.Tables, observe bool, uh, ut []*types.Hash) (out 
 			before := c.Height()
 			target := before + 1
 			if o.Op == "y" {
-				if o.K < 2 || o.K > before {
-					return out, nil, nil, fmt.Errorf("re-delivery needs 2 <= k <= head")
+				if o.K < 3 || o.K > before {
+					return out, nil, nil, fmt.Errorf("re-delivery needs 3 <= k <= head (block 2 carries the seeds)")
 				}
 				target = o.K
-				copy(nonces, nonceAt[target-1]) // the state is rolled back to block k-1
+				g = genAt[target-1] // the state is rolled back to block k-1
 			}
-			txs := mkTxs(i, o.N, o.Bad, i+1) // receivers depend on the op: a re-delivered block differs
+			txs := mkTxs(i, o.N, o.Bad, o.M, o.MBad, i+1) // receivers / proofs depend on the op: a re-delivered block differs
 			var ev *events.ExecutedEvent
 			if o.Op == "y" {
 				ev = execAt(c, target, txs)
@@ -346,17 +414,10 @@ func execPass(h execIn, t *clx.Tables, observe bool, uh, ut []*types.Hash) (out 
 				code = 8
 				break
 			}
-			nonceAt[target] = append([]uint64{}, nonces...)
-			e, bh, txh, err := entryOf(i, c.Height())
-			if err != nil {
-				return out, nil, nil, err
+			genAt[target] = g
+			if bh := c.Ledger.GetChainMeta().BlockHash; ev.Block.BlockHash.String() != bh.String() {
+				code = 6 // what the executor announced is not what the ledger holds
 			}
-			// what the executor announced must be what the ledger holds
-			if ev.Block.BlockHash.String() != bh.String() {
-				code = 6
-			}
-			out.Entries = append(out.Entries, e)
-			madeB, madeT = append(madeB, bh), append(madeT, txh...)
 		case "o":
 			if err := c.Restart(); err != nil {
 				return out, nil, nil, fmt.Errorf("restart: %w", err)
@@ -364,11 +425,21 @@ func execPass(h execIn, t *clx.Tables, observe bool, uh, ut []*types.Hash) (out 
 		default:
 			return out, nil, nil, fmt.Errorf("unknown op %q", o.Op)
 		}
-		st := stepOut{Code: code}
-		if observe {
-			st.Obs = clx.Observe(view(), t, h.KH, uh, ut)
+		opIdx := i
+		if o.Op == "o" {
+			opIdx = 1 << 30 // no entry
 		}
-		out.Steps = append(out.Steps, st)
+		if o.Op == "o" {
+			st := stepOut{Code: code}
+			if observe {
+				st.Obs = clx.Observe(view(), t, h.KH, uh, ut)
+			}
+			out.Steps = append(out.Steps, st)
+			continue
+		}
+		if err := record(opIdx, code); err != nil {
+			return out, nil, nil, err
+		}
 	}
 	return out, madeB, madeT, nil
 }
